@@ -41,6 +41,10 @@ class Ctx:
         self.t0 = time.time()
         self.exhaustive = False
         self.observations: List[str] = []
+        # demote(rule id, file, function, message) -> reason | None: while set, a finding of a shape-based rule about a construct that a by-value rule of the same property
+        # has already decided is recorded as a (trivial) discharged obligation with that reason instead of a violation
+        self.demote = None
+        self.demoted: List[str] = []
 
     # ------------------------------------------------------------------
     def rule(self, rid: str, text: str):
@@ -61,6 +65,15 @@ class Ctx:
         r["nontrivial"] += 1
         rel = mod.rel if hasattr(mod, "rel") else str(mod)
         line = getattr(node, "lineno", 0) if node is not None else 0
+        if self.demote is not None:
+            why = self.demote(rid, rel, function, message)
+            if why:
+                r["failed"] -= 1
+                r["nontrivial"] -= 1
+                self.demoted.append(f"{self.prop}-{rid} {rel}:{line} {function}: {message[:160]}")
+                self.obligations.append({"rule": rid, "site": f"{rel}:{line} {function}", "verdict": "ok",
+                                         "what": f"{why}; the shape-based rule does not recognise this spelling (it would report: {message[:160]})"})
+                return None
         f = Finding(self.prop, f"{self.prop}-{rid}", rel, line, function, norm(construct)[:300], message, extra)
         self.findings.append(f)
         self.obligations.append({"rule": rid, "site": f"{rel}:{line} {function}", "what": message,
